@@ -14,30 +14,47 @@
 //!          | props <n|~> { <deposit> }* | mint <overwrite 0|1> <policy hex> <name hex|-> <amount>
 //!          | don <c> | treas <c> | fee <c> | minfee <c> | change <addr> <extra>
 //!          | selchange <strategy 0..3> <addr> <extra> <k> { <id> }* | build
-//!          | x <tag> <n>          tag = sig | coll | ref | refplain | meta | ttl
+//!          | x <tag> <n>          tag = sig | coll | colltotal | collret | ref | refplain | meta | ttl | datum
 //!   addr  = address id of a destination (>= 1; kind and bytes are a function of the id: enterprise, base, pointer,
 //!           base with script stake part, one Byron address (id 4)); these addresses never sign.
 //!   extra = 0 none, 1 datum hash, 2 inline datum, 3 script ref, 4 inline datum + script ref.
 //!   PR    = ex-unit prices and reference-script price per byte of the builder configuration (~ = not configured).
 //!   U     = the UTxO table.  UTxO id i is outpoint (hash(i), i mod 7).  kind:
-//!           0 key address (enterprise for even ids, base for odd ids), payment key kh(id mod 12)
-//!           1 Byron / Icarus address of bip32 key (id mod 3)   (add_bootstrap_input for even ids, add_regular_input for odd)
-//!           2 native script: even id -> ScriptPubkey kh(id mod 12); odd id -> ScriptAll [kh(id mod 12), kh((id+1) mod 12)]
-//!           3 Plutus V2 script in the witness set, inline datum, spend redeemer with ExUnits(<mem>, <steps>)
-//!           5 Plutus V2 script BY REFERENCE (script hash and reference outpoint are functions of <refsize>), script_size = <refsize>
-//!           mem = steps = 0 unless kind 3 / 5; refsize = 0 unless kind 5.  selchange offers kind-0 UTxOs only.
+//!           0 key address (enterprise or base by (id/2) mod 2), payment key kh(id mod 12)
+//!           1 Byron / Icarus address of bip32 key (id mod 3)
+//!           2 native script: (id/2) even -> ScriptPubkey kh(id mod 12); odd -> ScriptAll [kh(id mod 12), kh((id+1) mod 12)]
+//!           3 Plutus V2 script in the witness set, INLINE datum on the UTxO (PlutusWitness::new_without_datum)
+//!           4 Plutus V2 script in the witness set, WITNESS datum (PlutusWitness::new; datum = bytes of length 1 + id mod 40)
+//!           5 Plutus V2 script BY REFERENCE, inline datum (new_with_ref_without_datum)
+//!           6 Plutus V2 script BY REFERENCE, witness datum (new_with_ref + DatumSource::new)
+//!           3..6: spend redeemer with ExUnits(<mem>, <steps>); mem = steps = 0 for kinds 0..2.
+//!           <refsize>, kinds 5/6: script_size of the referenced script (script hash and reference outpoint are functions of
+//!           <refsize>: equal sizes = one referenced script).  <refsize> > 0, kinds 0..4: the UTxO's OWN output carries a
+//!           script_ref (Plutus V2 script, content a function of id) with ScriptRef::to_unwrapped_bytes().len() = <refsize>.
+//!   in id = the UTxO goes into ONE TxInputsBuilder (all kinds), re-installed with set_inputs after each `in`.  Route:
+//!           kinds 0..4 with refsize > 0, or odd id: UTxO form (add_regular_utxo / add_native_script_utxo /
+//!           add_plutus_script_utxo with the UTxO's output); even id: add_key_input (id mod 4 = 0) / add_regular_input
+//!           (id mod 4 = 2) for kind 0, add_bootstrap_input / add_regular_input for kind 1, add_native_script_input,
+//!           add_plutus_script_input.   selchange offers kind-0 and kind-1 UTxOs (with their own script_ref, if any).
 //!   OB    = for every (addr, extra) pair of an out / change / selchange op, in order of first occurrence:
 //!           obase = |output(addr, extra, ADA-only value 0)| - 1  (the bytes of such an output outside its Value)
 //!   x sig k        add_required_signer(kh(k))
-//!   x coll id      UTxO id (kind 0 or 1) becomes a collateral input (set_collateral)
+//!   x coll id      UTxO id (kind 0 or 1) becomes a collateral input (set_collateral; address form, no script_ref)
+//!   x colltotal n  set_total_collateral(n)
+//!   x collret a    set_collateral_return(output(address a, 2000000 lovelace))
 //!   x ref size     add_script_reference_input(fresh outpoint, size)     (fresh: numbered by the count of x ref ops so far)
 //!   x refplain n   add_reference_input(outpoint number n)
 //!   x meta n       metadatum label 674 := list of texts (64-byte chunks) with n bytes in all
 //!   x ttl n        set_ttl_bignum(n)
+//!   x datum n      add_extra_witness_datum(bytes [0xd0 + n mod 16; n])
 //!   Keys: sk(k) is a real Ed25519 key, kh(k) its hash.  Certificate number i of a `certs` op has credential kh((i + 5) mod 12)
-//!   (tag 4: that key is the pool operator); withdrawal <addr> has reward credential kh(addr mod 12); minting policy i is
-//!   ScriptPubkey kh(1000 + i).  Before the first change / selchange op, when a Plutus input is present, the harness calls
-//!   calc_script_data_hash (dummy V2 cost model) so that build_tx passes its pre-checks.
+//!   (tag 4: that key is the pool operator); for i mod 4 = 3 and tag in {1,2,8,9,16,17,18} the credential is the SCRIPT hash of
+//!   ScriptPubkey kh((i + 5) mod 12), added with add_with_native_script (that key signs).
+//!   Withdrawal <addr>: 21..31 -> script credential = hash of ScriptPubkey kh(addr - 20), add_with_native_script (that key
+//!   signs); 41..51 -> script credential = hash of a Plutus V2 script (bytes depend on addr), add_with_plutus_witness without
+//!   datum, Reward redeemer with ExUnits(addr * 1000, addr * 1000000); otherwise key credential kh(addr mod 12).
+//!   Minting policy i is ScriptPubkey kh(1000 + i).  Before the first change / selchange op, when a Plutus input or Plutus
+//!   withdrawal is present, the harness calls calc_script_data_hash (dummy V2 cost model) so that build_tx passes its pre-checks.
 //!
 //! Result line (implementation):
 //!   ok R <n> {ok|t|f|err|panic}*
@@ -50,11 +67,12 @@
 //!   R    result per op.   S the builder's state at the end.   FIN full_size() and the public min_fee() at the end.
 //!   TX   the transaction of the LAST build op when that op succeeded, REALLY signed: one vkey witness per distinct key the
 //!        ledger requires (payment keys of key inputs and key collateral, keys of native-script inputs, certificate
-//!        credentials (all generated tags but 0), withdrawal keys, required signers, minting-policy keys), one bootstrap
+//!        credentials (all generated tags but 0; the key of a native-script credential), withdrawal keys (the key of a
+//!        native-script reward credential; none for Plutus), required signers, minting-policy keys), one bootstrap
 //!        witness per distinct Byron address among inputs and collateral.  The signing set is read off the BODY (inputs,
 //!        collateral, certs, withdrawals, mint, required_signers) and the scenario's UTxO table, never off the builder's own
-//!        counting.  mem / steps = sums over the redeemers of the witness set; refsize = ground truth: distinct <refsize>
-//!        of the kind-5 UTxOs among the inputs + sizes of all x ref ops.
+//!        counting.  mem / steps = sums over the redeemers of the witness set; refsize = ground truth: <refsize> of every
+//!        spent UTxO of kinds 0..4 (each input separately) + distinct <refsize> of the spent kinds 5/6 + sizes of all x ref ops.
 //!   UNS  the same figures for build_tx_unsafe() at the very end (when a fee is set and it succeeds).
 //!   POL  the fee request at the end: u nothing, n r = the last of the fee/minfee ops was minfee r, e f = it was fee f.
 //!   ORA  per op what hook H5 (rust/src/verif_oracle.rs) recorded (sites F A S T; marker C filtered; for selchange only the
@@ -182,19 +200,19 @@ fn extra_of(o: &TransactionOutput) -> u64 {
 fn utxo_key(id: u64) -> u64 { id % POOL }
 fn utxo_address(id: u64, kind: u32) -> Option<Address> {
     match kind {
-        0 => Some(if id % 2 == 0 { EnterpriseAddress::new(1, &key_cred(utxo_key(id))).to_address() }
+        0 => Some(if (id / 2) % 2 == 0 { EnterpriseAddress::new(1, &key_cred(utxo_key(id))).to_address() }
                   else { BaseAddress::new(1, &key_cred(utxo_key(id)), &key_cred((id + 5) % POOL)).to_address() }),
         1 => Some(byron_addr(id % 3).to_address()),
         _ => None,
     }
 }
-fn utxo_native_keys(id: u64) -> Vec<u64> { if id % 2 == 0 { vec![utxo_key(id)] } else { vec![utxo_key(id), (utxo_key(id) + 1) % POOL] } }
+fn utxo_native_keys(id: u64) -> Vec<u64> { if (id / 2) % 2 == 0 { vec![utxo_key(id)] } else { vec![utxo_key(id), (utxo_key(id) + 1) % POOL] } }
+fn pubkey_script(k: u64) -> NativeScript { NativeScript::new_script_pubkey(&ScriptPubkey::new(&kh(k))) }
 fn utxo_native_script(id: u64) -> NativeScript {
     let ks = utxo_native_keys(id);
-    let pk = |k: u64| NativeScript::new_script_pubkey(&ScriptPubkey::new(&kh(k)));
-    if ks.len() == 1 { pk(ks[0]) } else {
+    if ks.len() == 1 { pubkey_script(ks[0]) } else {
         let mut all = NativeScripts::new();
-        for k in &ks { all.add(&pk(*k)); }
+        for k in &ks { all.add(&pubkey_script(*k)); }
         NativeScript::new_script_all(&ScriptAll::new(&all))
     }
 }
@@ -203,21 +221,55 @@ fn plutus_script(id: u64) -> PlutusScript {
     bytes.extend_from_slice(&(id % 2).to_be_bytes());
     PlutusScript::new_v2(bytes)
 }
+fn witness_datum(id: u64) -> PlutusData { PlutusData::new_bytes(vec![0xa0 + (id % 16) as u8; 1 + (id % 40) as usize]) }
 fn plutus_witness(u: &U) -> PlutusWitness {
     let data = PlutusData::new_integer(&BigInt::from_str(&u.id.to_string()).unwrap());
     let red = Redeemer::new(&RedeemerTag::new_spend(), &b64(0), &data, &ExUnits::new(&b64(u.mem), &b64(u.steps)));
-    if u.kind == 5 {
-        let src = PlutusScriptSource::new_ref_input(&scripthash(u.refsize, 40), &ref_outpoint(41, u.refsize), &Language::new_plutus_v2(), u.refsize as usize);
-        PlutusWitness::new_with_ref(&src, &DatumSource::new(&inline_datum()), &red)
-    } else {
-        PlutusWitness::new(&plutus_script(u.id), &inline_datum(), &red)
+    let src = || PlutusScriptSource::new_ref_input(&scripthash(u.refsize, 40), &ref_outpoint(41, u.refsize), &Language::new_plutus_v2(), u.refsize as usize);
+    match u.kind {
+        3 => PlutusWitness::new_without_datum(&plutus_script(u.id), &red),
+        4 => PlutusWitness::new(&plutus_script(u.id), &witness_datum(u.id), &red),
+        5 => PlutusWitness::new_with_ref_without_datum(&src(), &red),
+        _ => PlutusWitness::new_with_ref(&src(), &DatumSource::new(&witness_datum(u.id)), &red),
     }
 }
+/// the script_ref a UTxO of kinds 0..4 carries itself: a Plutus V2 script of `len` raw bytes; as "script" of the CDDL it
+/// is [2, bytes]: 2 + |head(len)| + len bytes
+fn bstr_head(l: usize) -> usize { if l < 24 { 1 } else if l < 256 { 2 } else if l < 65536 { 3 } else { 5 } }
+fn own_ref_len(refsize: u64) -> Option<usize> {
+    [1usize, 2, 3, 5].iter().find_map(|h| { let l = (refsize as usize).checked_sub(2 + h)?; if bstr_head(l) == *h { Some(l) } else { None } })
+}
+fn own_script_ref(id: u64, len: usize) -> ScriptRef {
+    let bytes = if len == 0 { vec![] } else { fill(id, 60, len) };
+    ScriptRef::new_plutus_script(&PlutusScript::new_v2(bytes))
+}
+/// the output a UTxO holds, as the builder is shown it in UTxO form
+fn utxo_output(u: &U) -> Result<TransactionOutput, JsError> {
+    let script_addr = |h: &ScriptHash| EnterpriseAddress::new(1, &Credential::from_scripthash(h)).to_address();
+    let addr = match u.kind {
+        0 | 1 => utxo_address(u.id, u.kind).unwrap(),
+        2 => script_addr(&utxo_native_script(u.id).hash()),
+        3 | 4 => script_addr(&plutus_script(u.id).hash()),
+        5 | 6 => script_addr(&scripthash(u.refsize, 40)),
+        _ => return Err(JsError::from_str("unknown utxo kind")),
+    };
+    let mut o = TransactionOutput::new(&addr, &u.val.to_value());
+    match u.kind { 3 | 5 => o.set_plutus_data(&inline_datum()), 4 | 6 => o.set_data_hash(&hash_plutus_data(&witness_datum(u.id))), _ => {} }
+    if u.kind <= 4 && u.refsize > 0 {
+        let len = own_ref_len(u.refsize).ok_or(JsError::from_str("no own script_ref of that size"))?;
+        let sr = own_script_ref(u.id, len);
+        assert_eq!(sr.to_unwrapped_bytes().len() as u64, u.refsize, "own script_ref size");
+        o.set_script_ref(&sr);
+    }
+    Ok(o)
+}
+fn has_own_ref(u: &U) -> bool { u.kind <= 4 && u.refsize > 0 }
 
 /// A real certificate of CDDL kind `tag`; its credential is the real key kh((i + CERT_OFFSET) mod POOL).
 fn cert_key(i: u64) -> u64 { (i + CERT_OFFSET) % POOL }
+fn cert_is_scripted(tag: u32, i: u64) -> bool { i % 4 == 3 && matches!(tag, 1 | 2 | 8 | 9 | 16 | 17 | 18) }
 fn mk_cert(tag: u32, coin: Option<BigNum>, i: u64) -> Certificate {
-    let c = key_cred(cert_key(i));
+    let c = if cert_is_scripted(tag, i) { Credential::from_scripthash(&pubkey_script(cert_key(i)).hash()) } else { key_cred(cert_key(i)) };
     let pool = keyhash(i, 2);
     let odd = i % 2 == 1;
     let amt = || coin.clone().expect("coin for this kind");
@@ -238,17 +290,17 @@ fn mk_cert(tag: u32, coin: Option<BigNum>, i: u64) -> Certificate {
 const CERT_TAGS: [u32; 10] = [0, 1, 2, 4, 7, 8, 9, 16, 17, 18];
 fn tag_has_coin(tag: u32) -> bool { matches!(tag, 7 | 8 | 11 | 12 | 13 | 16 | 17) }
 
-/// the key hash that has to witness a certificate read back from a body (ledger table, the kinds generated here)
-fn cert_witness_key(c: &Certificate) -> Option<Ed25519KeyHash> {
+/// the credential that has to witness a certificate read back from a body (ledger table, the kinds generated here)
+fn cert_witness_cred(c: &Certificate) -> Option<Credential> {
     match c.kind() {
-        CertificateKind::StakeRegistration => { let x = c.as_stake_registration().or(c.as_reg_cert()).unwrap(); if x.coin().is_some() { x.stake_credential().to_keyhash() } else { None } }
-        CertificateKind::StakeDeregistration => c.as_stake_deregistration().or(c.as_unreg_cert()).unwrap().stake_credential().to_keyhash(),
-        CertificateKind::StakeDelegation => c.as_stake_delegation().unwrap().stake_credential().to_keyhash(),
-        CertificateKind::PoolRetirement => Some(c.as_pool_retirement().unwrap().pool_keyhash()),
-        CertificateKind::VoteDelegation => c.as_vote_delegation().unwrap().stake_credential().to_keyhash(),
-        CertificateKind::DRepRegistration => c.as_drep_registration().unwrap().voting_credential().to_keyhash(),
-        CertificateKind::DRepDeregistration => c.as_drep_deregistration().unwrap().voting_credential().to_keyhash(),
-        CertificateKind::DRepUpdate => c.as_drep_update().unwrap().voting_credential().to_keyhash(),
+        CertificateKind::StakeRegistration => { let x = c.as_stake_registration().or(c.as_reg_cert()).unwrap(); if x.coin().is_some() { Some(x.stake_credential()) } else { None } }
+        CertificateKind::StakeDeregistration => Some(c.as_stake_deregistration().or(c.as_unreg_cert()).unwrap().stake_credential()),
+        CertificateKind::StakeDelegation => Some(c.as_stake_delegation().unwrap().stake_credential()),
+        CertificateKind::PoolRetirement => Some(Credential::from_keyhash(&c.as_pool_retirement().unwrap().pool_keyhash())),
+        CertificateKind::VoteDelegation => Some(c.as_vote_delegation().unwrap().stake_credential()),
+        CertificateKind::DRepRegistration => Some(c.as_drep_registration().unwrap().voting_credential()),
+        CertificateKind::DRepDeregistration => Some(c.as_drep_deregistration().unwrap().voting_credential()),
+        CertificateKind::DRepUpdate => Some(c.as_drep_update().unwrap().voting_credential()),
         k => panic!("certificate kind {:?} outside the C06 set", k),
     }
 }
@@ -261,7 +313,14 @@ fn mk_proposal(deposit: &BigNum, i: u64) -> VotingProposal {
     };
     VotingProposal::new(&action, &anchor(i, 14), &RewardAddress::new(0, &kcred(i, 15)), deposit)
 }
-fn reward_address(id: u64) -> RewardAddress { RewardAddress::new(1, &key_cred(id % POOL)) }
+fn wd_plutus_script(id: u64) -> PlutusScript { PlutusScript::new_v2(vec![0x4e, 0x01, 0x00, 0x00, id as u8, (id >> 8) as u8]) }
+fn reward_address(id: u64) -> RewardAddress {
+    match id {
+        21..=31 => RewardAddress::new(1, &Credential::from_scripthash(&pubkey_script(id - 20).hash())),
+        41..=51 => RewardAddress::new(1, &Credential::from_scripthash(&wd_plutus_script(id).hash())),
+        _ => RewardAddress::new(1, &key_cred(id % POOL)),
+    }
+}
 
 // ------------------------------------------------------------------------------------------------
 // scenario data
@@ -456,12 +515,15 @@ fn parse(toks: &[String]) -> Scenario {
 struct World {
     tb: TransactionBuilder,
     mint: MintBuilder,
+    ib: TxInputsBuilder,
     coll: TxInputsBuilder,
     utxos: HashMap<u64, U>,
     addr_ids: HashMap<Vec<u8>, u64>,
     policy_idx: HashMap<Vec<u8>, u64>,
     key_ids: HashMap<Vec<u8>, u64>,
+    native_keys: HashMap<Vec<u8>, u64>,
     plutus_in: bool,
+    plutus_wd: bool,
     sdh_set: bool,
     n_xref: u64,
     xref_total: u64,
@@ -490,17 +552,18 @@ fn new_world(sc: &Scenario) -> World {
     let mut policy_idx = HashMap::new();
     let mut key_ids = HashMap::new();
     for i in 0..N_POLICIES { policy_idx.insert(policy_script(i).hash().to_bytes(), i); key_ids.insert(kh(1000 + i).to_bytes(), 1000 + i); }
-    for k in 0..POOL { key_ids.insert(kh(k).to_bytes(), k); }
-    World { tb: TransactionBuilder::new(&cfg), mint: MintBuilder::new(), coll: TxInputsBuilder::new(),
+    let mut native_keys = HashMap::new();
+    for k in 0..POOL { key_ids.insert(kh(k).to_bytes(), k); native_keys.insert(pubkey_script(k).hash().to_bytes(), k); }
+    World { tb: TransactionBuilder::new(&cfg), mint: MintBuilder::new(), ib: TxInputsBuilder::new(), coll: TxInputsBuilder::new(),
             utxos: sc.utxos.iter().map(|u| (u.id, u.clone())).collect(),
-            addr_ids: HashMap::new(), policy_idx, key_ids, plutus_in: false, sdh_set: false, n_xref: 0, xref_total: 0 }
+            addr_ids: HashMap::new(), policy_idx, key_ids, native_keys, plutus_in: false, plutus_wd: false, sdh_set: false, n_xref: 0, xref_total: 0 }
 }
 
-/// kind-0 UTxOs as coin selection sees them
-fn key_utxo(w: &World, id: u64) -> Option<TransactionUnspentOutput> {
+/// key and Byron UTxOs as coin selection sees them (with the script_ref they carry, if any)
+fn sel_utxo(w: &World, id: u64) -> Option<TransactionUnspentOutput> {
     let u = w.utxos.get(&id)?;
-    if u.kind != 0 { return None; }
-    Some(TransactionUnspentOutput::new(&utxo_input(id), &TransactionOutput::new(&utxo_address(id, 0).unwrap(), &u.val.to_value())))
+    if u.kind > 1 { return None; }
+    Some(TransactionUnspentOutput::new(&utxo_input(id), &utxo_output(u).ok()?))
 }
 
 fn change_datum(extra: u64) -> Option<OutputDatum> {
@@ -534,7 +597,7 @@ fn measure_k(tb: &TransactionBuilder) -> Option<u64> {
 /// build_tx wants a script data hash when Plutus inputs are present; it is a body field, so it is set before the first
 /// balancing operation measures anything
 fn prepare_balancing(w: &mut World) {
-    if w.plutus_in && !w.sdh_set {
+    if (w.plutus_in || w.plutus_wd) && !w.sdh_set {
         let mut cm = CostModel::new();
         for i in 0..10 { let _ = cm.set(i, &Int::new_i32(1000 + i as i32)); }
         let mut cms = Costmdls::new();
@@ -551,17 +614,30 @@ fn run_op(w: &mut World, op: &Op, last_tx: &mut Option<Transaction>) -> OpRec {
             let r = match w.utxos.get(id).cloned() {
                 Some(u) => {
                     let (input, value) = (utxo_input(u.id), u.val.to_value());
+                    let utxo_form = has_own_ref(&u) || u.id % 2 == 1;
+                    let ib = &mut w.ib;
                     let r = catch(|| -> Result<(), JsError> {
-                        match u.kind {
-                            0 => w.tb.add_regular_input(&utxo_address(u.id, 0).unwrap(), &input, &value),
-                            1 => { if u.id % 2 == 0 { w.tb.add_bootstrap_input(&byron_addr(u.id % 3), &input, &value); Ok(()) }
-                                   else { w.tb.add_regular_input(&byron_addr(u.id % 3).to_address(), &input, &value) } }
-                            2 => { w.tb.add_native_script_input(&utxo_native_script(u.id), &input, &value); Ok(()) }
-                            3 | 5 => { w.tb.add_plutus_script_input(&plutus_witness(&u), &input, &value); Ok(()) }
-                            _ => Err(JsError::from_str("unknown utxo kind")),
+                        if utxo_form {
+                            let tu = TransactionUnspentOutput::new(&input, &utxo_output(&u)?);
+                            match u.kind {
+                                0 | 1 => ib.add_regular_utxo(&tu),
+                                2 => ib.add_native_script_utxo(&tu, &NativeScriptSource::new(&utxo_native_script(u.id))),
+                                _ => ib.add_plutus_script_utxo(&tu, &plutus_witness(&u)),
+                            }
+                        } else {
+                            match u.kind {
+                                0 => { if u.id % 4 == 0 { ib.add_key_input(&kh(utxo_key(u.id)), &input, &value); Ok(()) }
+                                       else { ib.add_regular_input(&utxo_address(u.id, 0).unwrap(), &input, &value) } }
+                                1 => { if u.id % 4 == 0 { ib.add_bootstrap_input(&byron_addr(u.id % 3), &input, &value); Ok(()) }
+                                       else { ib.add_regular_input(&byron_addr(u.id % 3).to_address(), &input, &value) } }
+                                2 => { ib.add_native_script_input(&NativeScriptSource::new(&utxo_native_script(u.id)), &input, &value); Ok(()) }
+                                3..=6 => { ib.add_plutus_script_input(&plutus_witness(&u), &input, &value); Ok(()) }
+                                _ => Err(JsError::from_str("unknown utxo kind")),
+                            }
                         }
                     });
-                    if matches!(r, Ok(Ok(()))) && matches!(u.kind, 3 | 5) { w.plutus_in = true; }
+                    w.tb.set_inputs(&w.ib);
+                    if matches!(r, Ok(Ok(()))) && matches!(u.kind, 3..=6) { w.plutus_in = true; }
                     r
                 }
                 None => Ok(Err(JsError::from_str("no such utxo"))),
@@ -580,7 +656,11 @@ fn run_op(w: &mut World, op: &Op, last_tx: &mut Option<Transaction>) -> OpRec {
                 None => w.tb.remove_certs(),
                 Some(cs) => {
                     let mut b = CertificatesBuilder::new();
-                    for (i, (t, c)) in cs.iter().enumerate() { b.add(&mk_cert(*t, c.clone(), i as u64)).expect("distinct key-credential certificates"); }
+                    for (i, (t, c)) in cs.iter().enumerate() {
+                        let cert = mk_cert(*t, c.clone(), i as u64);
+                        if cert_is_scripted(*t, i as u64) { b.add_with_native_script(&cert, &NativeScriptSource::new(&pubkey_script(cert_key(i as u64)))).expect("script-credential certificate"); }
+                        else { b.add(&cert).expect("distinct key-credential certificates"); }
+                    }
                     w.tb.set_certs_builder(&b);
                 }
             }
@@ -588,10 +668,22 @@ fn run_op(w: &mut World, op: &Op, last_tx: &mut Option<Transaction>) -> OpRec {
         }
         Op::Wd(ws) => {
             match ws {
-                None => w.tb.remove_withdrawals(),
+                None => { w.tb.remove_withdrawals(); w.plutus_wd = false; }
                 Some(ws) => {
                     let mut b = WithdrawalsBuilder::new();
-                    for (a, c) in ws { b.add(&reward_address(*a), c).expect("key reward address"); }
+                    for (a, c) in ws {
+                        let addr = reward_address(*a);
+                        match *a {
+                            21..=31 => b.add_with_native_script(&addr, c, &NativeScriptSource::new(&pubkey_script(*a - 20))).expect("native-script reward address"),
+                            41..=51 => {
+                                let red = Redeemer::new(&RedeemerTag::new_reward(), &b64(0), &PlutusData::new_integer(&BigInt::from_str(&a.to_string()).unwrap()),
+                                    &ExUnits::new(&b64(*a * 1000), &b64(*a * 1_000_000)));
+                                b.add_with_plutus_witness(&addr, c, &PlutusWitness::new_without_datum(&wd_plutus_script(*a), &red)).expect("Plutus reward address")
+                            }
+                            _ => b.add(&addr, c).expect("key reward address"),
+                        }
+                    }
+                    w.plutus_wd = ws.iter().any(|(a, _)| matches!(*a, 41..=51));
                     w.tb.set_withdrawals_builder(&b);
                 }
             }
@@ -632,6 +724,9 @@ fn run_op(w: &mut World, op: &Op, last_tx: &mut Option<Transaction>) -> OpRec {
                     }
                     _ => Ok(Err(JsError::from_str("no such key / Byron utxo"))),
                 },
+                "colltotal" => { w.tb.set_total_collateral(&b64(*n)); Ok(Ok(())) }
+                "collret" => { w.tb.set_collateral_return(&TransactionOutput::new(&address(*n), &Value::new(&b64(2_000_000)))); Ok(Ok(())) }
+                "datum" => { w.tb.add_extra_witness_datum(&PlutusData::new_bytes(vec![0xd0 + (*n % 16) as u8; *n as usize])); Ok(Ok(())) }
                 "ref" => { w.tb.add_script_reference_input(&ref_outpoint(50, w.n_xref), *n as usize); w.n_xref += 1; w.xref_total += *n; Ok(Ok(())) }
                 "refplain" => { w.tb.add_reference_input(&ref_outpoint(51, *n)); Ok(Ok(())) }
                 "meta" => catch(|| -> Result<(), JsError> {
@@ -663,7 +758,7 @@ fn run_op(w: &mut World, op: &Op, last_tx: &mut Option<Transaction>) -> OpRec {
             note_addr(w, *a);
             prepare_balancing(w);
             let mut avail = TransactionUnspentOutputs::new();
-            for id in ids { if let Some(u) = key_utxo(w, *id) { avail.add(&u); } }
+            for id in ids { if let Some(u) = sel_utxo(w, *id) { avail.add(&u); } }
             let strategy = |s: u32| match s { 0 => CoinSelectionStrategyCIP2::LargestFirst, 1 => CoinSelectionStrategyCIP2::RandomImprove,
                 2 => CoinSelectionStrategyCIP2::LargestFirstMultiAsset, _ => CoinSelectionStrategyCIP2::RandomImproveMultiAsset };
             let script: Vec<u64> = { let mut r = Rng::new(ids.len() as u64 * 31 + *a); (0..4096).map(|_| r.next() >> 8).collect() };
@@ -709,6 +804,7 @@ fn signed_figures(w: &World, tx: &Transaction) -> String {
     let mut keys: BTreeSet<u64> = BTreeSet::new();
     let mut boots: BTreeSet<u64> = BTreeSet::new();
     let mut ref_sizes: BTreeSet<u64> = BTreeSet::new();
+    let mut own_ref_total: u64 = 0;
     let key_of = |h: &Ed25519KeyHash| -> u64 { *w.key_ids.get(&h.to_bytes()).expect("key hash of the body is one of the scenario's keys") };
     let mut owner = |id: u64, spent: bool| {
         let u = w.utxos.get(&id).expect("input of the body is a UTxO of the scenario");
@@ -716,18 +812,28 @@ fn signed_figures(w: &World, tx: &Transaction) -> String {
             0 => { keys.insert(utxo_key(id)); }
             1 => { boots.insert(id % 3); }
             2 => { keys.extend(utxo_native_keys(id)); }
-            5 => { if spent { ref_sizes.insert(u.refsize); } }
+            5 | 6 => { if spent { ref_sizes.insert(u.refsize); } }
             _ => {}
+        }
+        if spent && has_own_ref(u) { own_ref_total += u.refsize; }
+    };
+    // a credential that has to authorise something: its key, the key of its native script, nothing for a Plutus script
+    let cred_key = |c: &Credential| -> Option<u64> {
+        match (c.to_keyhash(), c.to_scripthash()) {
+            (Some(h), _) => Some(key_of(&h)),
+            (_, Some(h)) => w.native_keys.get(&h.to_bytes()).cloned().or_else(|| {
+                assert!((41..=51).any(|a| wd_plutus_script(a).hash() == h), "script credential of the body is one of the scenario's scripts"); None }),
+            _ => None,
         }
     };
     let ins = body.inputs();
     for i in 0..ins.len() { owner(utxo_id_of(&ins.get(i)), true); }
     if let Some(col) = body.collateral() { for i in 0..col.len() { owner(utxo_id_of(&col.get(i)), false); } }
     if let Some(rs) = body.required_signers() { for i in 0..rs.len() { keys.insert(key_of(&rs.get(i))); } }
-    if let Some(cs) = body.certs() { for i in 0..cs.len() { if let Some(h) = cert_witness_key(&cs.get(i)) { keys.insert(key_of(&h)); } } }
+    if let Some(cs) = body.certs() { for i in 0..cs.len() { if let Some(k) = cert_witness_cred(&cs.get(i)).and_then(|c| cred_key(&c)) { keys.insert(k); } } }
     if let Some(ws) = body.withdrawals() {
         let ks = ws.keys();
-        for i in 0..ks.len() { if let Some(h) = ks.get(i).payment_cred().to_keyhash() { keys.insert(key_of(&h)); } }
+        for i in 0..ks.len() { if let Some(k) = cred_key(&ks.get(i).payment_cred()) { keys.insert(k); } }
     }
     if let Some(m) = body.mint() {
         let ps = m.keys();
@@ -757,7 +863,7 @@ fn signed_figures(w: &World, tx: &Transaction) -> String {
     if let Some(rs) = tx.witness_set().redeemers() {
         for i in 0..rs.len() { let e = rs.get(i).ex_units(); mem += u64of(&e.mem()) as u128; steps += u64of(&e.steps()) as u128; }
     }
-    let refsize: u64 = ref_sizes.iter().sum::<u64>() + w.xref_total;
+    let refsize: u64 = own_ref_total + ref_sizes.iter().sum::<u64>() + w.xref_total;
     format!("{} {} {} {} {} {} {}", body.fee().to_str(), bytes.len(), nvk, nbw, mem, steps, refsize)
 }
 
@@ -891,51 +997,78 @@ fn gen_certs(r: &mut Rng, edge: bool) -> Vec<(u32, Option<BigNum>)> {
 
 const REF_SIZES: [u64; 12] = [0, 1, 100, 2500, 2500, 14000, 25599, 25600, 25601, 51200, 60000, 200000];
 
-/// the witness-relevant extras: Byron / native-script / Plutus UTxOs, collateral, required signers, reference inputs,
-/// metadata, ttl.  Ops are appended to `pre` (which the caller shuffles).
-fn decorate(r: &mut Rng, cfg: &mut Cfg, utxos: &mut Vec<U>, pre: &mut Vec<Op>, full: bool) {
+/// a size an own script_ref can have (2 + |head(len)| + len for some len), around the 25600-byte tiers of the fee
+fn gen_own_ref(r: &mut Rng) -> u64 {
+    let t = *r.pick(&[3u64, 30, 100, 2500, 2500, 14000, 25599, 25600, 25601, 51200, 60000, 200000]) + r.below(3);
+    if own_ref_len(t).is_some() { t } else { t + 1 }
+}
+fn gen_collateral(r: &mut Rng, utxos: &mut Vec<U>, pre: &mut Vec<Op>) {
+    let cid = 800 + r.below(12);
+    let ckind = if r.chance(1, 3) { 1 } else { 0 };
+    utxos.push(U { id: cid, kind: ckind, mem: 0, steps: 0, refsize: 0, val: Val::ada(5_000_000) });
+    pre.push(Op::X("coll".into(), cid));
+    if r.chance(1, 3) {
+        let which = r.below(3);
+        if which != 1 { pre.push(Op::X("colltotal".into(), *r.pick(&[3_000_000u64, 5_000_000, 23, 1 << 32]))); }
+        if which != 0 { pre.push(Op::X("collret".into(), r.range(1, 30))); }
+    }
+}
+
+/// the witness-relevant extras: Byron / native-script / Plutus UTxOs (some carrying a script_ref of their own), collateral,
+/// required signers, reference inputs, extra datums, metadata, ttl.  Ops are appended to `pre` (which the caller shuffles).
+fn decorate(r: &mut Rng, cfg: &mut Cfg, utxos: &mut Vec<U>, pre: &mut Vec<Op>, full: bool, plutus_wd: bool) {
     if full && r.chance(1, 6) {
         let n = if r.chance(1, 3) { 2 } else { 1 };
         let base = 210 + r.below(6);
-        for j in 0..n { let id = base + j * (1 + r.below(2)) * 7; utxos.push(U { id, kind: 1, mem: 0, steps: 0, refsize: 0, val: Val::ada(r.range(2_000_000, 9_000_000)) }); pre.push(Op::In(id)); }
+        for j in 0..n {
+            let id = base + j * (1 + r.below(2)) * 7;
+            let refsize = if r.chance(1, 3) { gen_own_ref(r) } else { 0 };
+            utxos.push(U { id, kind: 1, mem: 0, steps: 0, refsize, val: Val::ada(r.range(2_000_000, 9_000_000)) }); pre.push(Op::In(id));
+        }
     }
     if full && r.chance(1, 6) {
         let n = if r.chance(1, 4) { 2 } else { 1 };
         let base = 300 + r.below(24);
-        for j in 0..n { let id = base + j * 25; utxos.push(U { id, kind: 2, mem: 0, steps: 0, refsize: 0, val: Val::ada(r.range(2_000_000, 9_000_000)) }); pre.push(Op::In(id)); }
+        for j in 0..n {
+            let id = base + j * 25;
+            let refsize = if r.chance(1, 4) { gen_own_ref(r) } else { 0 };
+            utxos.push(U { id, kind: 2, mem: 0, steps: 0, refsize, val: Val::ada(r.range(2_000_000, 9_000_000)) }); pre.push(Op::In(id));
+        }
     }
-    if full && r.chance(1, 8) {
+    let mut datum_rank = 0;      // 2: an input with a witness datum (kinds 4 / 6), 1: other Plutus inputs
+    let plutus_inputs = full && r.chance(1, 8);
+    if plutus_inputs {
         let n = if r.chance(1, 4) { 2 } else { 1 };
         let base = 400 + r.below(20);
         for j in 0..n {
-            let by_ref = r.chance(1, 2);
+            let kind = *r.pick(&[3u32, 4, 4, 5, 6, 6]);
+            let by_ref = kind >= 5;
+            datum_rank = datum_rank.max(if kind == 4 || kind == 6 { 2 } else { 1 });
             let mem = match r.below(6) { 0 => 0, 1 => r.u64_edge() >> 24, _ => r.range(1000, 14_000_000) };
             let steps = match r.below(6) { 0 => 0, 1 => r.u64_edge() >> 20, _ => r.range(100_000, 10_000_000_000) };
-            let refsize = if by_ref { *r.pick(&REF_SIZES[1..]) + r.below(3) } else { 0 };
+            let refsize = if by_ref { *r.pick(&REF_SIZES[1..]) + r.below(3) } else if r.chance(1, 4) { gen_own_ref(r) } else { 0 };
             let id = base + j * 21;
-            utxos.push(U { id, kind: if by_ref { 5 } else { 3 }, mem, steps, refsize, val: Val::ada(r.range(2_000_000, 9_000_000)) });
+            utxos.push(U { id, kind, mem, steps, refsize, val: Val::ada(r.range(2_000_000, 9_000_000)) });
             pre.push(Op::In(id));
             if by_ref { cfg.refprice = if r.chance(1, 5) { None } else { Some(*r.pick(&[[15u64, 1u64], [15, 1], [44, 1], [1, 3]])) }; }
         }
+    }
+    if plutus_inputs || plutus_wd {
         cfg.prices = if r.chance(1, 10) { None } else { Some(*r.pick(&[MAINNET_PRICES, MAINNET_PRICES, [1, 1, 1, 1000], [0, 1, 0, 1]])) };
-        if !r.chance(1, 12) {
-            let cid = 800 + r.below(12);
-            let ckind = if r.chance(1, 3) { 1 } else { 0 };
-            utxos.push(U { id: cid, kind: ckind, mem: 0, steps: 0, refsize: 0, val: Val::ada(5_000_000) });
-            pre.push(Op::X("coll".into(), cid));
-        }
+        if !r.chance(1, 12) { gen_collateral(r, utxos, pre); }
     } else if full && r.chance(1, 8) {
         // collateral without Plutus inputs: the body still carries it and its owner has to sign
-        let cid = 800 + r.below(12);
-        let ckind = if r.chance(1, 3) { 1 } else { 0 };
-        utxos.push(U { id: cid, kind: ckind, mem: 0, steps: 0, refsize: 0, val: Val::ada(5_000_000) });
-        pre.push(Op::X("coll".into(), cid));
+        gen_collateral(r, utxos, pre);
     }
+    let (dn, dd) = match datum_rank { 2 => (1, 3), 1 => (1, 6), _ => (1, 30) };
+    if r.chance(dn, dd) { for _ in 0..r.range(1, 2) { pre.push(Op::X("datum".into(), *r.pick(&[1u64, 5, 23, 24, 40, 64, 65, 255, 256, 300]))); } }
     if r.chance(1, 6) { for _ in 0..r.range(1, 2) { pre.push(Op::X("sig".into(), r.below(POOL))); } }
     if full && r.chance(1, 8) {
         for _ in 0..r.range(1, 2) { pre.push(Op::X("ref".into(), *r.pick(&REF_SIZES))); }
         if cfg.refprice.is_none() && !r.chance(1, 5) { cfg.refprice = Some([15, 1]); }
     }
+    // UTxOs that carry a script_ref of their own: their bytes enter the reference-script fee
+    if utxos.iter().any(has_own_ref) && cfg.refprice.is_none() && !r.chance(1, 6) { cfg.refprice = Some([15, 1]); }
     if r.chance(1, 10) { pre.push(Op::X("meta".into(), *r.pick(&[1u64, 10, 64, 65, 200, 1200, 3000]))); }
     if r.chance(1, 2) { pre.push(Op::X("ttl".into(), match r.below(4) { 0 => r.u64_edge(), _ => r.range(1_000_000, 200_000_000) })); }
     if full && r.chance(1, 12) { pre.push(Op::X("refplain".into(), r.below(50))); }
@@ -959,8 +1092,12 @@ fn gen_scenario(r: &mut Rng, stream: u32) -> Scenario {
         let mut coin = gen_coin(r, kind);
         if k == 0 && a64 > 10_000 && !edge { coin = coin.saturating_add(a64.saturating_mul(4000)); }     // fees of hundreds of ADA
         let n_assets = if with_assets { match stream { 3 => r.range(5, 30), _ => r.below(5) } } else { 0 };
-        utxos.push(U::key(id, Val { coin: b64(coin), assets: gen_assets(r, n_assets, n_pol, stream == 3) }));
+        // coin selection is offered Byron UTxOs and UTxOs carrying a script_ref as well
+        let (ukind, refsize) = if stream == 5 { (if r.chance(1, 3) { 1 } else { 0 }, if r.chance(1, 3) { gen_own_ref(r) } else { 0 }) }
+                               else { (0, if r.chance(1, 8) { gen_own_ref(r) } else { 0 }) };
+        utxos.push(U { id, kind: ukind, mem: 0, steps: 0, refsize, val: Val { coin: b64(coin), assets: gen_assets(r, n_assets, n_pol, stream == 3) } });
     }
+    let mut plutus_wd = false;
     let key_ids: Vec<u64> = utxos.iter().map(|u| u.id).collect();
     // operations before balancing
     if stream != 5 { for id in &key_ids { pre.push(Op::In(*id)); } }
@@ -979,7 +1116,16 @@ fn gen_scenario(r: &mut Rng, stream: u32) -> Scenario {
     }
     if matches!(stream, 4 | 6) || r.chance(1, 6) {
         if r.chance(1, 2) { pre.push(Op::Certs(Some(gen_certs(r, edge)))); }
-        if r.chance(1, 2) { let n = r.range(1, 3); pre.push(Op::Wd(Some((0..n).map(|_| (r.range(1, 11), b64(if edge { r.u64_edge() } else { r.range(0, 3_000_000) }))).collect()))); }
+        if r.chance(1, 2) {
+            // distinct reward accounts: key credentials, now and then a native-script or a Plutus credential
+            let n = r.range(1, 3) as usize;
+            let mut ids: Vec<u64> = vec![];
+            if r.chance(1, 5) { ids.push(21 + r.below(11)); }
+            if r.chance(1, 6) { ids.push(41 + r.below(11)); plutus_wd = true; }
+            while ids.len() < n { let a = r.range(1, 11); if !ids.contains(&a) { ids.push(a); } }
+            shuffle(r, &mut ids);
+            pre.push(Op::Wd(Some(ids.into_iter().map(|a| (a, b64(if edge { r.u64_edge() } else { r.range(0, 3_000_000) }))).collect())));
+        }
         if r.chance(1, 3) { pre.push(Op::Don(b64(if edge { r.u64_edge() } else { r.range(0, 2_000_000) }))); }
         if r.chance(1, 4) { pre.push(Op::Treas(b64(r.below(3) * 1_000_000_000))); }
         if r.chance(1, 8) { pre.push(Op::Certs(None)); }
@@ -1003,7 +1149,7 @@ fn gen_scenario(r: &mut Rng, stream: u32) -> Scenario {
         }
     }
     if r.chance(1, 5) { pre.push(if r.chance(1, 2) { Op::Fee(b64(*r.pick(&[170_000u64, 200_000, 1_000_000, 0, 5_000_000]))) } else { Op::MinFee(b64(*r.pick(&[170_000u64, 250_000, 1_000_000, 0, 5_000_000]))) }); }
-    decorate(r, &mut cfg, &mut utxos, &mut pre, true);
+    decorate(r, &mut cfg, &mut utxos, &mut pre, true, plutus_wd);
     shuffle(r, &mut pre);
     let change_addr = r.range(1, 30);
     match stream {
@@ -1112,7 +1258,7 @@ fn gen_width(r: &mut Rng) -> Scenario {
         pre.push(Op::Out(r.range(1, 30), *r.pick(&[0u64, 0, 0, 0, 1, 2]), Val::ada(coin)));
     }
     if let Some(m) = meta { pre.push(Op::X("meta".into(), m)); }
-    decorate(r, &mut cfg, &mut utxos, &mut pre, false);
+    decorate(r, &mut cfg, &mut utxos, &mut pre, false, false);
     let head = pre.remove(0);
     shuffle(r, &mut pre);
     pre.insert(0, head);
